@@ -139,7 +139,9 @@ func (a *cbApp) WriteAcknowledgement(_ sdk.Context, _ ibcexported.PacketI, _ ibc
 	}
 	return nil
 }
-func (a *cbApp) GetAppVersion(_ sdk.Context, _, _ string) (string, bool) { return transfertypes.V1, true }
+func (a *cbApp) GetAppVersion(_ sdk.Context, _, _ string) (string, bool) {
+	return transfertypes.V1, true
+}
 
 // cbAppV2 is the application (and write-ack wrapper / channel keeper) around the v2 middleware.
 type cbAppV2 struct {
